@@ -636,6 +636,15 @@ Fixpoint par_steps (P : list Z) (steps : list step) : res (list (list Z)) :=
               do rest <- par_steps P r; Ok (P :: rest)
   end.
 
+(* specification functions for the counts: [csum P A x] is the sum of A[d] over the nodes d
+   whose parent P[d] is x; [ind l u] is 1 if u is in l, else 0 *)
+Fixpoint csum (P A : list Z) (x : Z) : Z :=
+  match P, A with
+  | p :: P', a :: A' => (if p =? x then a else 0) + csum P' A' x
+  | _, _ => 0
+  end.
+Definition ind (l : list Z) (u : Z) : Z := if existsb (Z.eqb u) l then 1 else 0.
+
 (* observation of one tree for the correspondence check *)
 Definition obs_tree (o : topts) (t : tree) : list (list Z) :=
   [ [p_index (t_pos t); p_left (t_pos t); p_right (t_pos t); t_num_edges t];
